@@ -65,3 +65,139 @@ Example C02_examples :
   /\ enc_zoned [1; 2] 12 = [241; 194]
   /\ unpack 10 (mkpic true 4 0) (enc_be 2 (-2)) = Ok (VInt (-2)) /\ enc_be 2 (-2) = [255; 254].
 Proof. vm_compute. repeat split; reflexivity. Qed.
+
+(* ======================================================================================
+   ADDITIONS: the text branch for EVERY picture, the text unpacker.  (Nothing above is changed.)
+   [dec_parse s] is the decoder-side scanner and Representation.parse on the PICTURE string s
+   (Model/Picture.v, C13); [unpack_any usage s buffer] is estruct.unpack on a clause with that
+   usage and that picture: for DISPLAY, zoned decimal when zoned_decimal says so, else the text
+   branch for whatever elements the scanner produced (Model/Estruct.v, second half);
+   [text_pattern] lists the lexemes of Representation.pattern, one per character position;
+   [fits_classes ts text] says: as many characters as positions, and each character is in the
+   class of its position, where the class of each picture symbol is ([sym_class], [atom_ok]):
+       A           \w : letters, digits and the underscore (Unicode; spelled out below 256)
+       X           any character
+       9  Z  0     \d : a decimal digit (so a Z position holding the blank COBOL stores for a
+                   suppressed zero does NOT fit, and a 0 position admits any digit)
+       B           \s : white space
+       $ , / * .   that character itself          V  no position
+       - DB CR     those characters themselves
+       S           a blank, a plus or a minus sign, and the position may be missing altogether
+       +           (no class in the implementation: a quantifier; see C02_text_plus_refuted)
+   ====================================================================================== *)
+Require Import SR.Model.Picture SR.Proofs.EstructTextP.
+
+(* Every picture string the scanner accepts as DISPLAY text (not zoned decimal) has one lexeme per
+   position; if it holds no + then for every buffer of that many bytes: characters that fit decode to
+   exactly their code page 037 text; without an S, characters that do not fit are refused with
+   ValueError; and in every case the result is that text or ValueError - never another string. *)
+Theorem C02_text_any_picture : forall (s : list N) (r : parsed),
+  dec_parse s = Some (Ok r) -> p_zoned r = false ->
+  exists ts : list rtok,
+    text_pattern (p_elems r) = Ok ts /\ length ts = p_size r /\
+    (has_plus ts = false -> forall buffer : list N, length buffer = p_size r ->
+       let result := unpack_any display_spelling s buffer in
+       let decoded := VStr (map cp037 buffer) in
+       (fits_classes ts (map cp037 buffer) = true -> result = Some (Ok decoded))
+       /\ (has_optsign ts = false -> fits_classes ts (map cp037 buffer) = false -> result = Some (Err ValueError))
+       /\ (result = Some (Ok decoded) \/ result = Some (Err ValueError))).
+Proof. exact C02_text_any_picture_lemma. Qed.
+Print Assumptions C02_text_any_picture.
+
+(* Whatever the picture (a + included) and whatever the length of the buffer: the CP037 text of the
+   buffer, ValueError, or re.error (wire code 7) - a different string is never returned. *)
+Theorem C02_text_never_another_string : forall (s : list N) (r : parsed) (buffer : list N),
+  dec_parse s = Some (Ok r) -> p_zoned r = false ->
+  let result := unpack_any display_spelling s buffer in
+  result = Some (Ok (VStr (map cp037 buffer))) \/ result = Some (Err ValueError) \/ result = Some (Err StructError).
+Proof. exact C02_text_never_another_string_lemma. Qed.
+Print Assumptions C02_text_never_another_string.
+
+(* re.match is anchored at the start only: surplus bytes after a fitting field are decoded and returned
+   with it; a buffer shorter than the picture (no S in it) is refused. *)
+Theorem C02_text_surplus_short : forall (s : list N) (r : parsed) (ts : list rtok),
+  dec_parse s = Some (Ok r) -> p_zoned r = false -> text_pattern (p_elems r) = Ok ts -> has_plus ts = false ->
+  (forall buffer extra, fits_classes ts (map cp037 buffer) = true ->
+     unpack_any display_spelling s (buffer ++ extra) = Some (Ok (VStr (map cp037 (buffer ++ extra)))))
+  /\ (has_optsign ts = false -> forall buffer, (length buffer < p_size r)%nat ->
+     unpack_any display_spelling s buffer = Some (Err ValueError)).
+Proof. exact C02_text_surplus_short_lemma. Qed.
+Print Assumptions C02_text_surplus_short.
+
+(* The statement without the premise "no +" is false of the faithful model (known finding
+   K-text-plus-sign): PIC +99 holding +12 raises re.error; PIC 9+9 holding 1+2 raises ValueError. *)
+Definition C02_text_any_picture_full : Prop :=
+  forall (s : list N) (r : parsed) (ts : list rtok) (buffer : list N),
+    dec_parse s = Some (Ok r) -> p_zoned r = false -> text_pattern (p_elems r) = Ok ts ->
+    length buffer = p_size r -> fits_classes ts (map cp037 buffer) = true ->
+    unpack_any display_spelling s buffer = Some (Ok (VStr (map cp037 buffer))).
+
+Theorem C02_text_plus_refuted : ~ C02_text_any_picture_full.
+Proof. exact C02_text_plus_refuted_lemma. Qed.
+Print Assumptions C02_text_plus_refuted.
+
+Theorem C02_text_plus_inner_refuted :
+  exists s r ts buffer, dec_parse s = Some (Ok r) /\ p_zoned r = false /\ text_pattern (p_elems r) = Ok ts
+    /\ length buffer = p_size r /\ fits_classes ts (map cp037 buffer) = true
+    /\ unpack_any display_spelling s buffer = Some (Err ValueError).
+Proof. exact plus_inner_witness. Qed.
+
+(* "Characters that do not fit are refused" is false as soon as the picture holds an S: the sign is
+   optional in the expression and the match is a prefix match, so PIC S99.99 accepts 12.345. *)
+Definition C02_text_refusal_full : Prop :=
+  forall (s : list N) (r : parsed) (ts : list rtok) (buffer : list N),
+    dec_parse s = Some (Ok r) -> p_zoned r = false -> text_pattern (p_elems r) = Ok ts -> has_plus ts = false ->
+    length buffer = p_size r -> fits_classes ts (map cp037 buffer) = false ->
+    unpack_any display_spelling s buffer = Some (Err ValueError).
+
+Theorem C02_text_optsign_refuted : ~ C02_text_refusal_full.
+Proof. exact C02_text_optsign_refuted_lemma. Qed.
+Print Assumptions C02_text_optsign_refuted.
+
+(* TextUnpacker: a text record  pad ++ field ++ tail  whose field (located by its offset and width, as
+   AtomicLocation.value slices it) holds the decimal text of a value - blanks, optional sign, integer
+   digits, optional full stop and fraction digits, blanks - declared with conversion "decimal" (key 6 of
+   the CONVERSION table read from the source) yields exactly that value: sign, every digit, scale. *)
+Theorem C02_textunpacker_numeric : forall (sgn : N) (ids fds : list N) (point : bool) (lp rp : nat) (pad tail : list N),
+  decimal_text_ok ids fds point = true -> (sgn < 3)%N ->
+  let field := decimal_text sgn ids fds point lp rp in
+  text_unpacker_value 6 (py_slice (length pad) (length field) (pad ++ field ++ tail))
+  = Some (Ok (VDec (decimal_text_value sgn ids fds))).
+Proof. exact C02_textunpacker_numeric_lemma. Qed.
+Print Assumptions C02_textunpacker_numeric.
+
+(* ... and a string field (key 5) yields exactly the characters stored. *)
+Theorem C02_textunpacker_string : forall (pad field tail : list N),
+  text_unpacker_value 5 (py_slice (length pad) (length field) (pad ++ field ++ tail)) = Some (Ok (VStr field)).
+Proof. exact C02_textunpacker_string_lemma. Qed.
+Print Assumptions C02_textunpacker_string.
+
+(* Non-vacuity.  PIC ZZ9.99CR (8 positions, expression \d\d\d\.\d\dCR) holding 001.50CR decodes to that
+   text; holding "  1.50CR" (blank-suppressed zeros, what COBOL stores) it is refused.  -12.34 in a six
+   character field at offset 3 of the record abc-12.34xyz is Decimal('-12.34'). *)
+Example C02_text_examples :
+  match dec_parse [90; 90; 57; 46; 57; 57; 67; 82] with
+  | Some (Ok r) =>
+      p_zoned r = false /\ p_size r = 8%nat
+      /\ match text_pattern (p_elems r) with
+         | Ok ts =>
+             has_plus ts = false /\ has_optsign ts = false
+             /\ pattern_string ts = [92; 100; 92; 100; 92; 100; 92; 46; 92; 100; 92; 100; 67; 82]
+             /\ fits_classes ts (map cp037 [240; 240; 241; 75; 245; 240; 195; 217]) = true
+         | Err _ => False
+         end
+  | _ => False
+  end
+  /\ unpack_any display_spelling [90; 90; 57; 46; 57; 57; 67; 82] [240; 240; 241; 75; 245; 240; 195; 217]
+     = Some (Ok (VStr [48; 48; 49; 46; 53; 48; 67; 82]))
+  /\ unpack_any display_spelling [90; 90; 57; 46; 57; 57; 67; 82] [64; 64; 241; 75; 245; 240; 195; 217]
+     = Some (Err ValueError).
+Proof. vm_compute. repeat split; reflexivity. Qed.
+
+Example C02_textunpacker_examples :
+  decimal_text 2 [1; 2] [3; 4] true 0 0 = [45; 49; 50; 46; 51; 52]
+  /\ decimal_text_ok [1; 2] [3; 4] true = true
+  /\ text_unpacker_value 6 (py_slice 3 6 [97; 98; 99; 45; 49; 50; 46; 51; 52; 120; 121; 122])
+     = Some (Ok (VDec (mkdec true 1234 (-2))))
+  /\ text_unpacker_value 6 [49; 50; 97] = Some (Err DecimalInvalid).
+Proof. vm_compute. repeat split; reflexivity. Qed.
